@@ -92,10 +92,19 @@ def parse_mir(text):
     lines = text.split("\n")
     for lineno, ln in enumerate(lines, 1):
         if cur is None:
-            if ln.startswith("const ") and ln.rstrip().endswith("= {") and "::promoted[" in ln:
-                # promoted constant: a parameterless body that computes the constant
-                hdr = ln[6:].rstrip()[:-3].rstrip()
-                k = hdr.index("]: ") + 1
+            mc = re.match(r"^const ([\w:]+): (.+?) = const (.+);$", ln)
+            if mc:
+                CONST_ITEMS[mc.group(1).split("::")[-1]] = mc.group(3)
+                continue
+            if (ln.startswith("const ") or ln.startswith("static ")) and ln.rstrip().endswith("= {"):
+                # promoted constant / const item / static: a parameterless body that computes the value
+                hdr = ln.split(" ", 1)[1].rstrip()[:-3].rstrip()
+                if hdr.startswith("mut "):
+                    hdr = hdr[4:]
+                if "::promoted[" in hdr:
+                    k = hdr.index("]: ") + 1
+                else:
+                    k = hdr.index(": ")
                 cur = Fn(hdr[:k], [], hdr[k + 2:].strip(), lineno)
                 fns.setdefault(cur.name, []).append(cur)
                 blk = None
@@ -233,6 +242,7 @@ ENUMS = {
     "Ordering": ["Less", "Equal", "Greater"],
     "Either": ["Left", "Right"],
 }
+CONST_ITEMS = {}        # simple const items printed inline in the dump: name -> literal text
 ENUM_FIELD_TYPES = {}   # (enum, variant) -> [type strings]  (crate enums, read from source)
 STRUCTS = {}            # struct name -> [(field name|None, type)]
 ORDERING_DISCR = {"Less": -1, "Equal": 0, "Greater": 1}
